@@ -103,6 +103,14 @@ def check(run):
                 break
             held = (a, b, c, (a.copy(), b.copy(), c.copy()))
             del arg
+    # one call with more codes than there are distinct ones (row numbers beyond 2^16)
+    many = np.concatenate([codes, rng.integers(0, NCODES, 40000).astype(np.uint16)])[rng.permutation(NCODES + 40000)]
+    a, b, c = chc._unpack_euler16(many)
+    run.ev(len(many))
+    run.nt(('many', len(many)))
+    if not (np.array_equal(a, minor[many], equal_nan=True) and np.array_equal(b, middle[many], equal_nan=True) and np.array_equal(c, major[many], equal_nan=True)):
+        bad = int(np.nonzero(~(np.isclose(c, major[many]).all(axis=1)))[0][0]) if c.shape == major[many].shape else -1
+        run.violation('euler-batch-dependence', dict(problem='batch of more than 65536 codes differs', n=len(many), first_bad_row=bad))
     # the codes may arrive in any integer dtype that can hold them
     for dt in (np.uint16, np.int32, np.int64, np.uint32, np.uint64):
         sub = rng.integers(0, NCODES, 5000)
@@ -213,6 +221,27 @@ def through_loaders(run, codes, minor, middle, major):
                             run.violation('euler-not-orthonormal', dict(path='loader', column=f, requested=req, worst_norm=float(nrm[np.argmax(np.abs(nrm - 1))])))
                             break
         run.count('loader_columns_checked', len(fields))
+    finally:
+        shutil.rmtree(tree['root'], ignore_errors=True)
+    # several files with degenerate contents: a single halo, all codes equal (0, the largest code, one in between), then a mixed file
+    from ..gen_catalog import make_euler_files
+
+    rng = run.rng(6)
+    per_file = [[0], [0, 0, 0], [NCODES - 1] * 4, [31337] * 2, rng.integers(0, NCODES, 50), [0], rng.integers(0, 45, 7), [44] * 3]
+    tree = make_euler_files(rng, per_file)
+    try:
+        cat = CompaSOHaloCatalog(tree['path'], cleaned=False, fields=fields)
+        raw = tree['codes'].astype(np.int64)
+        for s_ in stems:
+            for c in ('_com', '_L2com'):
+                for name, ref in (('Min', minor), ('Mid', middle), ('Maj', major)):
+                    got = np.asarray(cat.halos[f'{s_}{name}{c}'], dtype=np.float64)
+                    run.ev(len(raw))
+                    if got.shape != ref[raw].shape or not np.allclose(got, ref[raw], rtol=0, atol=2e-7):
+                        i = int(np.argmax(np.abs(got - ref[raw]).max(axis=1))) if got.shape == ref[raw].shape else 0
+                        run.violation('euler-loader-mismatch', dict(column=f'{s_}{name}{c}', files='degenerate contents (single halo, all-equal codes)', row=i, code=int(raw[i]), got=got[i].tolist() if got.ndim == 2 else None, direct=ref[raw][i].tolist()))
+                        break
+        run.nt(('loader-degenerate-files', len(per_file)))
     finally:
         shutil.rmtree(tree['root'], ignore_errors=True)
 
